@@ -182,6 +182,8 @@ func (t *zipTracer) instrView(z *diff.Zipper, in ssa.Instruction, oldSide bool) 
 		flag = x.Blocking
 	case *ssa.TypeAssert:
 		aux, flag = typeKeyOf(x.AssertedType), x.CommaOk
+	case *ssa.MakeInterface:
+		aux = typeKeyOf(x.X.Type())
 	}
 	var ops []string
 	for _, slot := range in.Operands(nil) {
